@@ -17,6 +17,7 @@ from common import hexs
 SIG_F2 = "C14:F2:escaped-base64-stream-data-rejected"
 SIG_F3 = "C14:F3:stale-length-in-stream-dict-after-data-not-ignored"
 SIG_F4 = "C14:F4:stream-replaced-by-reference-to-itself"
+SIG_F5 = "C14:F5:edit-of-unresolved-compressed-object-lost"
 
 
 class JO(list):
@@ -659,10 +660,13 @@ def run_cli_variants(cx, docs, wd):
         except ValueError:
             continue
         objs = tree[0][1][1]
-        streams = [k for k, v in objs if v and v[0][0] == "stream"]
+        # (not the containers of the file structure: editing a cross-reference stream - whose dictionary qpdf also uses as the
+        # trailer - or an object stream says nothing about the document)
+        streams = [k for k, v in objs if v and v[0][0] == "stream" and
+                   dict(dict(v[0][1]).get("dict") or []).get("/Type") not in ("/XRef", "/ObjStm")]
         values = [k for k, v in objs if k != "trailer" and v and v[0][0] == "value" and isinstance(v[0][1], JO)]
         for rep in range(2 if cx.quick else 5):
-            pick = rng.sample(streams, min(len(streams), rng.choice([1, 2]))) + rng.sample(values, min(len(values), 1))
+            pick = rng.sample(streams, min(len(streams), rng.choice([1, 2]))) + rng.sample(values, min(len(values), 1 if dd["kind"] != "generated-objstm" else 3))
             sub = JO()
             for k, v in objs:
                 if k not in pick:
@@ -713,7 +717,14 @@ def run_cli_variants(cx, docs, wd):
             continue
         changed = diff_objects(own, got1)
         if sorted(changed) != sorted(pick):
-            bad_json(cx, "cli-import-variants", case, "an edited subset (%s) written with %s changed %s" % (sorted(pick), st.describe(), changed[:6]), dd.get("sig", ""), ep1)
+            # an edit that does not arrive at all: objects that live in an object stream and are replaced before they were ever resolved
+            # are overwritten when a sibling in the same object stream is resolved later (known finding C14-F5)
+            lost = set(pick) - set(changed)
+            sig = dd.get("sig", "")
+            if lost and not (set(changed) - set(pick)) and lost <= compressed_objects(dd["path"]):
+                sig = SIG_F5
+            bad_json(cx, "cli-import-variants", case, "an edited subset (%s) written with %s changed %s%s" %
+                     (sorted(pick), st.describe(), changed[:6], " (the edit of %s, stored in an object stream, is lost)" % sorted(lost) if sig == SIG_F5 else ""), sig, ep1)
             continue
         d = diff_objects(got0, got1)
         if d:
@@ -746,6 +757,17 @@ def run_cli_variants(cx, docs, wd):
         if tmap[b] != got:
             bad_json(cx, "cli-import-variants", case, "%s: text of a string in the edited object changed" % path, sig, ep1)
     chk.count("cli-import-variants", 2 * len(ejobs), nontriv)
+
+
+_COMPRESSED = {}
+
+
+def compressed_objects(path):
+    """keys "obj:n 0 R" of the objects the file keeps in object streams (qpdf --show-xref)"""
+    if path not in _COMPRESSED:
+        rc, so, se = q(["--show-xref", path])
+        _COMPRESSED[path] = set("obj:%s %s R" % (m.group(1), m.group(2)) for m in re.finditer(r"^(\d+)/(\d+): compressed;", so.decode("latin-1"), re.M))
+    return _COMPRESSED[path]
 
 
 def bad_json(cx, part, case, why, sig, json_path):
